@@ -566,3 +566,59 @@ def _short(x):
     if isinstance(x, (dict, list)):
         return "<struct>"
     return x
+
+
+# ------------------------------------------------------------------------------- callee contracts with effects
+class Havoc:
+    """Handed to the body of an EffectContract: fresh (havocked) values, callee preconditions, assumed postconditions."""
+    __sym_native__ = True
+
+    def __init__(self, interp, cname):
+        self.interp, self.cname = interp, cname
+
+    def dec(self, base):
+        return SV(self.interp.path.fresh_real(f"{self.cname}!{base}"), DEC)
+
+    def int(self, base):
+        return SV(self.interp.path.fresh_int(f"{self.cname}!{base}"), INT)
+
+    def bool(self, base):
+        return SV(self.interp.path.fresh_bool(f"{self.cname}!{base}"), BOOL)
+
+    def le(self, a, b):
+        return _cmp(a, b, "le")
+
+    def eq(self, a, b):
+        return _cmp(a, b, "eq")
+
+    def require(self, name, cond):
+        """callee precondition: an obligation of the CALLER at this call site"""
+        from .interp import PathEnd
+        p = self.interp.path
+        p.vc(f"{self.cname}/requires:{name}", cond if isinstance(cond, SV) else bool(cond), kind="callee-pre")
+        if not isinstance(cond, SV) and not cond:
+            raise PathEnd()
+        if isinstance(cond, SV):
+            p.assume(as_bool_term(cond), "")
+
+    def assume_all(self, clauses):
+        from .interp import PathInfeasible
+        for k, v in clauses.items():
+            if isinstance(v, SV):
+                self.interp.path.assume(as_bool_term(v), f"contract {self.cname}: {k} (proved by its own PO)")
+            elif not v:
+                raise PathInfeasible()
+
+
+class EffectContract:
+    """Callee contract of a state-changing method: `body(hv, self, *args)` is sidecar text (interpreted) that states the
+    precondition (hv.require), havocs what the callee may modify (fresh symbols from hv), assumes the callee's proved
+    postcondition (hv.assume_all over the SAME clause function its own PO checks) and applies the frame: everything it does
+    not touch is unchanged.  Used by callers instead of the callee's body (modular verification)."""
+
+    def __init__(self, name, body):
+        self.name, self.body = name, body
+
+    def __call__(self, interp, args, kwargs):
+        hv = Havoc(interp, self.name)
+        return interp.call_value(self.body, [hv] + list(args), dict(kwargs))
